@@ -470,3 +470,39 @@ def fx_narrow(fx):
     c = _ctx()
     narrow.run(c, fx, ["src/lib.rs"], only=lambda fid: "narrowfx::" in fid)
     return _fires(c, "narrowfx::bad_store") and not _fires(c, "narrowfx::ok_store") and not _fires(c, "narrowfx::ok_masked")
+
+
+def fx_signature(fx):
+    from rules import signature
+    c1, c2 = _ctx(), _ctx()
+    # the two fixture modules live in one file: restrict by struct path
+    n1 = signature.run(c1, _Only(fx, "sigfx::"), "src/lib.rs", "sigfx::St")
+    n2 = signature.run(c2, _Only(fx, "sigfx_bad::"), "src/lib.rs", "sigfx_bad::St")
+    return n1 == 1 and n2 == 1 and not c1.violations and len(c2.violations) == 1 and "is_key" in c2.violations[0]["construct"]
+
+
+class _Only:
+    """view of the fixture facts restricted to ids containing a prefix"""
+    def __init__(self, fx, part):
+        self.fx, self.part = fx, part
+
+    def fn_ids(self, file=None):
+        return [f for f in self.fx.fn_ids(file) if self.part in f]
+
+    def __getattr__(self, k):
+        return getattr(self.fx, k)
+
+
+def fx_varint(fx):
+    from rules import trunc
+    c = _ctx()
+    n = trunc.writer_threshold(c, fx, ["src/lib.rs"], only=lambda fid: "varintfx::" in fid)
+    return n == 3 and _fires(c, "varintfx::bad_write") and not _fires(c, "varintfx::ok_write")
+
+
+def fx_widthcheck(fx):
+    from rules import narrow
+    c1, c2 = _ctx(), _ctx()
+    n1 = narrow.packed_value_checked(c1, fx, "widthfx::ok_build", r"::store_bits_static$")
+    n2 = narrow.packed_value_checked(c2, fx, "widthfx::bad_build", r"::store_bits_static$")
+    return n1 == 2 and n2 == 2 and not c1.violations and len(c2.violations) == 1
